@@ -1,10 +1,16 @@
 import PyGqlModel.Json
 import PyGqlModel.AsyncExec
+import PyGqlModel.AsyncExecE2
+import PyGqlModel.AsyncExecLoop
 /-!
   Line-protocol operations of C08 / C09 (shared by `drv_C08` and `drv_C09`):
     {"op":"async","case":<op>,"schedule":[i…]}  → generic Executor under the schedule
     {"op":"blocking","case":<op>}                → BlockingExecutor
   `<op>` = {"kind":"query"|"mutation","fields":[{"key","mode","out"}…]} (see harness/corr/C08_world.py: to_model).
+    {"op":"async-loop","case":<op>,"schedule":[i…]} → the same with today's LOOP form of execute_fields_serially (AsyncExecLoop.lean)
+    {"op":"e2-async","case":<e2>,"schedule":[i…]} / {"op":"e2-blocking","case":<e2>}   (AsyncExecE2.lean)
+    {"op":"e2-serial-async","case":<e2 with before = []>,"schedule":[i…]}                 the same as a mutation
+  `<e2>` = {"before":[field…],"key":…,"items":[comp…],"after":[field…]}: the list field `key` raises after `items`.
 -/
 open PyGql PyGql.AsyncExec
 
@@ -74,12 +80,26 @@ def resultToJson (r : Result) : J :=
   | .pending => .obj ([("status", .str "pending")] ++ base)
   | .junk => .obj ([("status", .str "junk")] ++ base)
 
+def e2OfJson (j : J) : E2.Op :=
+  { before := fldsOfList (j.arrD "before"), key := j.strD "key", items := compsOfList (j.arrD "items"),
+    after := fldsOfList (j.arrD "after") }
+
 def handle (j : J) : J :=
   match j.strD "op" with
   | "async" =>
     let sched := (j.arrD "schedule").map fun x => (x.asNat?).getD 0
     resultToJson (runAsync (opOfJson (j.getD "case")) sched)
+  | "async-loop" =>
+    let sched := (j.arrD "schedule").map fun x => (x.asNat?).getD 0
+    resultToJson (Loop.runAsync (opOfJson (j.getD "case")) sched)
   | "blocking" => resultToJson (runBlocking (opOfJson (j.getD "case")))
+  | "e2-async" =>
+    let sched := (j.arrD "schedule").map fun x => (x.asNat?).getD 0
+    resultToJson (E2.runAsync (e2OfJson (j.getD "case")) sched)
+  | "e2-serial-async" =>
+    let sched := (j.arrD "schedule").map fun x => (x.asNat?).getD 0
+    resultToJson (E2.runAsyncSerial (e2OfJson (j.getD "case")) sched)
+  | "e2-blocking" => resultToJson (E2.runBlocking (e2OfJson (j.getD "case")))
   | _ => .obj [("error", .str "bad-op")]
 
 end Driver.AsyncExecOps
